@@ -26,7 +26,7 @@ Proof. intros (_ & _ & H). unfold pub_incr. destruct (q_mode q) eqn:M; try refle
 Definition ipc_ok (ts : tstate) : Prop :=
   match t_pc ts with
   | PIdle | PSkip | PLen _ | PLen2 _ => t_acc ts = []
-  | PRes q | PChkF q _ | PLdY q _ => wf_reqI q /\ (q_ctx q = CTop -> t_acc ts = [])
+  | PRes q | PChkF q _ | PLdY q _ | PChkT q _ => wf_reqI q /\ (q_ctx q = CTop -> t_acc ts = [])
   | PSrc q _ g => wf_reqI q /\ (q_ctx q = CTop -> t_acc ts = []) /\ N.of_nat (length g) < q_n q
   | PSetF q _ g => wf_reqI q /\ (q_ctx q = CTop -> t_acc ts = []) /\ N.of_nat (length g) < q_n q
   | PPub q _ g => wf_reqI q /\ (q_ctx q = CTop -> t_acc ts = []) /\ N.of_nat (length g) <= q_n q /\
@@ -558,12 +558,12 @@ Proof.
   assert (Tt : ticket (pcs_of c t) = Some (b, pub_incr q)) by (unfold pcs_of; rewrite Hpc; reflexivity).
   pose proof (p_tk _ _ _ _ _ (a_prot c I) t _ _ Tt) as (Hn & Hyb & Hbc).
   destruct (N.eqb_spec b (s_y (c_sh c))) as [Eb|Nb].
-  - (* its turn: it enters the critical section *)
+  - (* its turn: it enters the critical section (where it first looks at the completed flag once more) *)
     subst b. apply iA_silent; try assumption.
     + unfold is_idle. rewrite Hpc. reflexivity.
     + discriminate.
     + rewrite Hpc. reflexivity.
-    + unfold ipc_ok. cbn [set_pc t_pc t_acc length]. split; [assumption|]. split; [assumption|]. destruct Hq. cbn. lia.
+    + unfold ipc_ok. cbn [set_pc t_pc t_acc]. split; assumption.
     + apply prot_enter; [apply (a_prot c I)|exact Tt|unfold pcs_of; rewrite Hpc; reflexivity].
     + intros Hfu. apply protF_enter; [apply (a_prot c I)|apply (a_protF c I Hfu)|exact Tt|unfold pcs_of; rewrite Hpc; reflexivity].
     + intros Hfu cl rest T. unfold held in *. rewrite Hpc in T. cbn [set_pc t_pc t_acc length]. unfold acc_iv in *. cbn [set_pc t_acc].
@@ -580,6 +580,34 @@ Proof.
     + apply prot_retag; try (unfold pcs_of; rewrite Hpc; reflexivity); try discriminate. apply (a_prot c I).
     + intros Hfu. apply protF_retag; try (unfold pcs_of; rewrite Hpc; reflexivity); try discriminate. apply (a_protF c I Hfu).
     + intros Hfu cl rest T. rewrite held_set_pc_nocrit; [exact T|reflexivity|rewrite Hpc; reflexivity].
+    + rewrite Hpc. cbn [got_of length N.of_nat with_c with_f with_y with_src s_cur]. lia.
+Qed.
+
+(** ** its turn: the thread looks at the completed flag once more *)
+
+Lemma iA_chkt c t q b :
+  IInvA c -> In t L -> t_pc (c_pool c t) = PChkT q b -> IInvA (step e c t).
+Proof.
+  intros I Hin Hpc. rewrite (istep_chkt e c t q b Hpc).
+  destruct (ipc_req c t q I) as [Hq Hacc]; [rewrite Hpc; reflexivity|].
+  pose proof (a_prot c I) as P.
+  destruct (s_f (c_sh c)) eqn:Ef.
+  - (* completed in the meantime: the pull reports the end and abandons its ticket *)
+    apply iA_finish_end with (X := [(b, 0)]); try assumption.
+    + rewrite Hpc. reflexivity.
+    + unfold held. rewrite Hpc. reflexivity.
+    + intros a [<-|[]]. reflexivity.
+    + reflexivity.
+    + intros x Tx Cx N1 N2. apply prot_abandon; try assumption. unfold pcs_of. rewrite Hpc. reflexivity.
+    + intros Hfu x Tx Cx N1 N2. apply protF_abandon; try assumption; [apply (a_protF c I Hfu)|]. unfold pcs_of. rewrite Hpc. reflexivity.
+  - apply iA_silent; try assumption.
+    + unfold is_idle. rewrite Hpc. reflexivity.
+    + discriminate.
+    + rewrite Hpc. reflexivity.
+    + unfold ipc_ok. cbn [set_pc t_pc t_acc length]. split; [assumption|]. split; [assumption|]. destruct Hq. cbn. lia.
+    + apply prot_retag; try (unfold pcs_of; rewrite Hpc; reflexivity). exact P.
+    + intros Hfu. apply protF_retag; try (unfold pcs_of; rewrite Hpc; reflexivity); try discriminate. apply (a_protF c I Hfu).
+    + intros Hfu cl rest T. unfold held in *. rewrite Hpc in T. cbn [set_pc t_pc]. unfold acc_iv in *. cbn [set_pc t_acc]. exact T.
     + rewrite Hpc. cbn [got_of length N.of_nat with_c with_f with_y with_src s_cur]. lia.
 Qed.
 
@@ -1349,13 +1377,14 @@ Definition istep_nowrap (c : cfg) (t : tid) : Prop :=
 Lemma iA_step c t : IInvA c -> In t L -> istep_nowrap c t -> IInvA (step e c t).
 Proof.
   intros I Hin Hw. unfold istep_nowrap in Hw.
-  destruct (t_pc (c_pool c t)) as [|q|q b|q b|q b got|q b got|q b got|q b got| |hm|hm] eqn:Hpc.
+  destruct (t_pc (c_pool c t)) as [|q|q b|q b|q b|q b got|q b got|q b got|q b got| |hm|hm] eqn:Hpc.
   - destruct (t_todo (c_pool c t)) as [|o rest] eqn:Htodo.
     + rewrite istep_idle_nil by assumption. exact I.
     + rewrite (istep_idle_call c t o rest) by assumption. apply iA_call; assumption.
   - apply iA_res with q; assumption.
   - apply iA_chkf with q b; assumption.
   - apply iA_ldy with q b; assumption.
+  - apply iA_chkt with q b; assumption.
   - apply iA_src with q b got; assumption.
   - apply iA_setf with q b got; assumption.
   - apply iA_pub with q b got; assumption.
@@ -1368,7 +1397,7 @@ Qed.
 Lemma istep_labels c t : nowrap (c_labels (step e c t)) -> istep_nowrap c t.
 Proof.
   unfold istep_nowrap.
-  destruct (t_pc (c_pool c t)) as [|q|q b|q b|q b got|q b got|q b got|q b got| |hm|hm] eqn:Hpc; auto.
+  destruct (t_pc (c_pool c t)) as [|q|q b|q b|q b|q b got|q b got|q b got|q b got| |hm|hm] eqn:Hpc; auto.
   - rewrite (istep_res e Hk c t q Hpc). cbn [commit c_labels]. intros H. inversion H as [|? ? H1 H2]; subst. exact H1.
   - unfold step. rewrite Hpc.
     assert (forall sh pr, nowrap (c_labels (finish e c t sh (c_pool c t) (LAtom t SY AAdd (pub_incr q) (s_y (c_sh c)) (o_pub q)) q pr)) ->
